@@ -16,7 +16,8 @@ import re
 
 from ..engine import AnalysisError, dotted, iter_stmts, norm, walk_expr, const_str, kw
 from ..report import Finding
-from ..sizealg import to_poly
+from ..sizealg import to_poly, Poly
+from .. import dtypes as DT
 from .. import api
 
 LEVEL_TEXT = (
@@ -312,6 +313,22 @@ def run(ctx):
                 else:
                     ctx.violation(Finding('R-HDRFMT', RP, 'writearlpackedbit', st, "'%s' produces %s characters but field %s is %d wide" % (const_str(st.value.left), w, k, fw)))
     ctx.floor('formatted header fields', nf, 8)
+    # ---- R-RECLEN: index record and data records have the same length 50 + nx*ny
+    ctx.rule('R-RECLEN', 'index record (time header + variable table + filler) and every data record are 50 + nx*ny bytes')
+    env = DT.DtypeEnv(mod.assigns)
+    vh = DT.nbytes(env.eval(mod.assigns['vhdtype'])).constval()
+    th = DT.nbytes(env.eval(mod.assigns['thdtype'])).constval()
+    hd = [st for st in iter_stmts(mp.body) if isinstance(st, ast.Assign) and norm(st.targets[0]) == 'hdrdtype']
+    wmap = 'src/PseudoNetCDF/%s maparlpackedbit' % RP
+    if not hd:
+        raise AnalysisError('anchor vanished: hdrdtype in maparlpackedbit')
+    fill = to_poly(hd[0].value.args[0].right, {}, atomize=lambda n: 'TH' if norm(n) == 'thdtype.itemsize' else None)
+    total = fill + Poly.atom('hlen') + Poly.atom('TH')
+    data_rec = Poly.const(vh) + Poly.atom('ncell')
+    if total == data_rec and "'(%d,%d)>1S' % (ny, nx)" in norm(mp) and 'ncell = nx * ny' in norm(mp):
+        ctx.ok('R-RECLEN', 'index vs data record', wmap, 'time header + hlen + filler = %s = vhdtype (%d) + ncell' % (total, vh))
+    else:
+        ctx.violation(Finding('R-RECLEN', RP, 'maparlpackedbit', hd[0], 'index record is %s bytes but a data record is %s bytes: records are not of equal length' % (total, data_rec)))
     # ---- R-LAYKEYSHAPE
     consumer_pairs = any(isinstance(n, ast.comprehension) and isinstance(n.target, ast.Tuple) and norm(n.iter) == 'laykeys' for n in ast.walk(mp))
     prod_r = [st for st in iter_stmts(rvd.body) if isinstance(st, ast.Assign) and "out['laykeys']" in norm(st.targets[0])]
